@@ -1,10 +1,10 @@
-(* C11, static part for the redis, amqp and kafka extensions (DESIGN.md 5.C11 C11_static).
+(* C11, static part for the redis, amqp, kafka, http and dns extensions (DESIGN.md 5.C11 C11_static).
    prog_<ext>_<stage>: Summarize / Represent with their helpers, translated from the Go source into
    access programs (gen/StagesSrc.v); alts_<ext>: the shapes of the request / response maps,
    derived by reflection from what the real Dissect emits (gen/StageShapes.v).
    C11_static_*: the shape checker accepts the program for every alternative (vm_compute on the
    regenerated files).  C11_no_panic_*: hence, by the checker's soundness, the program runs
-   without a panic (no failed type assertion) on every request / response pair conforming to an
+   without a panic (no failed type assertion, no index of a too short slice) on every request / response pair conforming to an
    alternative.  No site is excluded (there is no known_unsafe list). *)
 From Coq Require Import List Bool String ZArith.
 Require Import V.Base.Prelude V.Shape.Access V.gen.StagesSrc V.gen.StageShapes V.Shape.StagesTie.
@@ -52,10 +52,39 @@ Theorem C11_no_panic_kafka_represent : forall req resp,
   existsb (fun a => alt_conf a req resp) alts_kafka = true -> stage_run prog_kafka_represent req resp = Ok tt.
 Proof. exact no_panic_kafka_represent. Qed.
 
-(* the translator refused nothing: the programs above are the whole of the six functions *)
+Theorem C11_static_http_summarize : check_alts prog_http_summarize alts_http = true.
+Proof. exact static_http_summarize. Qed.
+
+Theorem C11_no_panic_http_summarize : forall req resp,
+  existsb (fun a => alt_conf a req resp) alts_http = true -> stage_run prog_http_summarize req resp = Ok tt.
+Proof. exact no_panic_http_summarize. Qed.
+
+Theorem C11_static_http_represent : check_alts prog_http_represent alts_http = true.
+Proof. exact static_http_represent. Qed.
+
+Theorem C11_no_panic_http_represent : forall req resp,
+  existsb (fun a => alt_conf a req resp) alts_http = true -> stage_run prog_http_represent req resp = Ok tt.
+Proof. exact no_panic_http_represent. Qed.
+
+Theorem C11_static_dns_summarize : check_alts prog_dns_summarize alts_dns = true.
+Proof. exact static_dns_summarize. Qed.
+
+Theorem C11_no_panic_dns_summarize : forall req resp,
+  existsb (fun a => alt_conf a req resp) alts_dns = true -> stage_run prog_dns_summarize req resp = Ok tt.
+Proof. exact no_panic_dns_summarize. Qed.
+
+Theorem C11_static_dns_represent : check_alts prog_dns_represent alts_dns = true.
+Proof. exact static_dns_represent. Qed.
+
+Theorem C11_no_panic_dns_represent : forall req resp,
+  existsb (fun a => alt_conf a req resp) alts_dns = true -> stage_run prog_dns_represent req resp = Ok tt.
+Proof. exact no_panic_dns_represent. Qed.
+
+(* the translator refused nothing: the programs above are the whole of the ten functions *)
 Theorem C11_static_complete : untranslated = [].
 Proof. exact static_complete. Qed.
 
 (* the shapes were derived without a problem and no extension has an empty list of alternatives *)
-Theorem C11_shapes_derived : shape_problems = [] /\ alts_redis <> [] /\ alts_amqp <> [] /\ alts_kafka <> [].
+Theorem C11_shapes_derived :
+  shape_problems = [] /\ alts_redis <> [] /\ alts_amqp <> [] /\ alts_kafka <> [] /\ alts_http <> [] /\ alts_dns <> [].
 Proof. exact shapes_derived. Qed.
